@@ -3,6 +3,7 @@ import Hgxv.Proofs.C03Ref
 import Hgxv.Proofs.C03Keep
 import Hgxv.Proofs.C03Full
 import Hgxv.Model.C03Kind
+import Hgxv.Proofs.C03Ext
 /-! # C03 - TemporalHypergraph keeps (time, hyperedge) records; windows / snapshots / aggregate agree
 
 Model: `Hgxv/Model/C03.lean` (mirror of `hypergraphx/core/temporal_hypergraph.py` after the `fix:` commits of branch
@@ -407,3 +408,216 @@ example : answer demoStore (.edges (.pair 6 9) {} true) = .recsMeta [] ∧ answe
     (answer demoStore (.edges (.pair 3 5) {} true)).kind = .recsMeta ∧ (answer demoStore (.edges (.pair 3 5) {} false)).kind = .recs ∧
     (answer demoStore .minTime).kind = .int ∧ (answer (Store.new false) .maxTime).kind = .inf := by decide
 example : ∀ k ∈ edgeKeys demoStore, ¬ ((6 : Int) ≤ (k.1 : Int) ∧ (k.1 : Int) < 9) := by decide
+
+/-! ## Extension round: the constructor, the hashing view, the label mapping, the raw tables
+(`Model/C03Ext.lean`: `construct`, `hashView`, `mapping`, `exposeTables` / `populate`, `edgeTable` / `adjTable`; the
+machine `xstep` / `xrun` = the machine of the whole objects plus constructor calls `XOp.ctor` and the questions `XOp.ask`.
+`CtorArgs.WF`: the hyperedges handed to the constructor are duplicate-free node tuples - the quantifier's node sets) -/
+
+/-- **The constructor.** For all constructor arguments (`edge_list` with embedded times or with `time_list`, `weighted`,
+`weights`, `hypergraph_metadata`, `node_metadata`, `edge_metadata`) whose hyperedges are node sets: the constructor of
+the tables is accepted iff the constructor of the map is, and then the abstraction of the object IS the constructed map;
+an accepted constructor call is the run of the public calls `ctorCalls a` (`set_hypergraph_metadata`, one `add_node` per
+entry of `node_metadata`, ONE `add_edges`) on `TemporalHypergraph(weighted=w)`, all of them well-formed, so the object is
+`Reachable` and every theorem above holds for constructed objects. -/
+theorem C03_constructor (a : CtorArgs) (ha : a.WF) :
+    (construct a).map abs = Spec.construct a ∧
+    ∀ s, construct a = some s →
+      (∃ calls, ctorCalls a = some calls ∧ (∀ c ∈ calls, c.WF) ∧ s = runCalls (Store.new a.weighted) calls) ∧
+      Reachable s ∧ Spec.construct a = some (abs s) := by
+  refine ⟨construct_abs a ha, fun s hs => ⟨?_, construct_reachable a ha s hs, ?_⟩⟩
+  · obtain ⟨calls, h1, h2⟩ := construct_some a s hs
+    exact ⟨calls, h1, ctorCalls_wf a ha calls h1, h2⟩
+  · rw [← construct_abs a ha, hs]; rfl
+
+/-- The constructor raises (there is no object) exactly when the time information has none of the accepted forms -
+`time_list` without `edge_list`, an element of `edge_list` that is not a `(time, edge)` pair when `time_list` is missing,
+lists of different lengths - or when the single `add_edges` call refuses the batch (`addEdgesOk`: a time that is not a
+non-negative integer, wrong number of weights / metadata entries, a repeated hyperedge together with weights); this is
+decided by the arguments alone. -/
+theorem C03_constructor_rejects (a : CtorArgs) :
+    construct a = none ↔
+      (ctorBatch a.edges = none ∨ ∃ raws ts, ctorBatch a.edges = some (some (raws, ts)) ∧
+        addEdgesOk raws ts a.weights a.edgeMeta = false) :=
+  construct_none_iff a
+
+/-- **Projection of histories with constructor calls.** Running any history over `XOp` (every call of the whole-object
+machine, constructor calls into any slot - accepted or refused -, the new questions) gives the very state that the
+whole-object machine reaches on the expanded history (`XOp.expand`: an accepted constructor call = `new` + `ctorCalls`,
+a refused one and a question = nothing); well-formedness is preserved, so every object of such a history is `FReachable`
+and its tables are `Reachable`. -/
+theorem C03_ext_projection (ops : List XOp) (st : FState) :
+    xrun st ops = frun st (ops.flatMap XOp.expand) ∧
+    ((∀ op ∈ ops, op.WF) → ∀ b ∈ ops.flatMap XOp.expand, b.WF) ∧
+    (∀ o, XReachable o → FReachable o ∧ Reachable o.base) :=
+  ⟨xrun_expand ops st, expand_wf ops, fun _ h => ⟨xreachable_full h, freachable_base (xreachable_full h)⟩⟩
+
+/-- **Refinement from any constructor call on.** For every history of well-formed calls over `XOp` (constructor calls
+included): the abstraction of the tables of every slot is the run of the same history on the maps (`xspecRun`: base calls
+as before, a constructor call = `Spec.construct`); every base query that does not expose ids is answered as by the map;
+`expose_attributes_for_hashing()` and `get_mapping()` are answered as by the map (`Spec.xanswer`); every slot satisfies
+the invariant. -/
+theorem C03_ext_refines (ops : List XOp) (hwf : ∀ op ∈ ops, op.WF) :
+    absState (baseState (xrun [] ops)) = xspecRun [] ops ∧ StateInv (baseState (xrun [] ops)) ∧
+    (∀ i q, q.exposesIds = false →
+      (xstep (xrun [] ops) (.f (.query i (.base q)))).2 =
+        match get? (xspecRun [] ops) i with
+        | none => .f (.ans (.base .rej))
+        | some sp => .f (.ans (.base (Spec.answer sp q)))) ∧
+    (∀ i xq sp a, get? (xspecRun [] ops) i = some sp → Spec.xanswer sp xq = some a →
+      (xstep (xrun [] ops) (.ask i xq)).2 = .ans a) := by
+  have hinv := xrun_inv ops hwf [] (by intro p hp; cases hp)
+  have habs := xrun_abs ops hwf [] (by intro p hp; cases hp)
+  have habs' : absState (baseState (xrun [] ops)) = xspecRun [] ops := habs
+  refine ⟨habs', hinv, ?_, ?_⟩
+  · intro i q hq
+    rw [← habs']
+    simp only [xstep, fstep, absState, get?_mapVals, get?_baseState]
+    cases hg : get? (xrun [] ops) i with
+    | none => rfl
+    | some o =>
+      have hi : Inv o.base := hinv (i, o.base) (mem_of_get? _ _ _ (by rw [get?_baseState, hg]; rfl))
+      simp only [Option.map_some, Obj.answer]
+      rw [answer_abs o.base hi q hq]
+  · intro i xq sp a hsp ha
+    rw [← habs'] at hsp
+    simp only [absState, get?_mapVals, get?_baseState] at hsp
+    cases hg : get? (xrun [] ops) i with
+    | none => rw [hg] at hsp; simp at hsp
+    | some o =>
+      have hi : Inv o.base := hinv (i, o.base) (mem_of_get? _ _ _ (by rw [get?_baseState, hg]; rfl))
+      rw [hg] at hsp
+      simp only [Option.map_some, Option.some.injEq] at hsp
+      subst hsp
+      simp only [xstep, hg]
+      cases xq with
+      | hashing =>
+        simp only [Spec.xanswer, Option.some.injEq] at ha
+        subst ha
+        simp only [xanswer, hashView_abs o.base hi]
+      | mapping => simp only [Spec.xanswer, Option.some.injEq] at ha; subst ha; rfl
+      | indexOf n => simp only [Spec.xanswer, Option.some.injEq] at ha; subst ha; rfl
+      | edgeTable => simp [Spec.xanswer] at ha
+      | adjTable => simp [Spec.xanswer] at ha
+      | tables => simp [Spec.xanswer] at ha
+
+/-- `expose_attributes_for_hashing()` on a reachable object never raises and returns the flag, the hypergraph metadata,
+the entries of the map `(time, node set) ↦ (weight, metadata)` - exactly those, each once - in strictly increasing key
+order (time first, then the sorted node tuple), and the nodes with their metadata in strictly increasing label order. -/
+theorem C03_hashing (s : Store) (hs : Reachable s) :
+    ∃ v, hashView s = some v ∧ v = Spec.hashView (abs s) ∧ v.weighted = s.weighted ∧ v.hmeta = s.hmeta ∧
+      v.edges.Perm (abs s).recs ∧ v.edges.Pairwise (fun x y => ltKey x.1 y.1 = true) ∧
+      v.nodes.Perm s.nmeta ∧ v.nodes.Pairwise (fun x y => x.1 < y.1) := by
+  have h := reachable_inv hs
+  refine ⟨_, hashView_abs s h, rfl, rfl, rfl, sortBy_perm _ _ _, ?_, sortBy_perm _ _ _, ?_⟩
+  · exact sortBy_sorted _ _ st_ltKey _ (by
+      show (keys (records s)).Nodup
+      rw [keys_records]; exact h.keysNodup)
+  · have := sortBy_sorted (fun (p : Node × Meta) => p.1) ltNat st_ltNat s.nmeta h.nt.nmetaNodup
+    exact this.imp (fun hab => by simpa [ltNat] using hab)
+
+/-- **The hashing view is canonical.** Two reachable objects (any histories, any insertion orders, any internal ids)
+have the same `expose_attributes_for_hashing()` IFF they have the same weighted flag, the same hypergraph metadata, the
+same records with weight and metadata and the same nodes with metadata as SETS: the view forgets exactly the history
+(order, ids) and nothing of the content. -/
+theorem C03_hashing_canonical (s1 s2 : Store) (h1 : Reachable s1) (h2 : Reachable s2) :
+    hashView s1 = hashView s2 ↔
+      s1.weighted = s2.weighted ∧ s1.hmeta = s2.hmeta ∧ (abs s1).recs.Perm (abs s2).recs ∧ s1.nmeta.Perm s2.nmeta := by
+  have i1 := reachable_inv h1
+  have i2 := reachable_inv h2
+  rw [hashView_abs s1 i1, hashView_abs s2 i2]
+  simp only [Option.some.injEq]
+  exact Spec.hashView_eq_iff (abs s1) (abs s2)
+    (by show (keys (records s1)).Nodup; rw [keys_records]; exact i1.keysNodup) i1.nt.nmetaNodup
+
+/-- `get_mapping()`: the encoder's classes are exactly the nodes, each once, in strictly increasing label order; a
+label is encoded (`transform`) iff it is a node, and the code of a node is its position in that list - a bijection
+between the nodes and `0 .. num_nodes-1`. -/
+theorem C03_mapping (s : Store) (hs : Reachable s) :
+    (mapping s).Perm (keys s.nmeta) ∧ (mapping s).Pairwise (· < ·) ∧ (mapping s).length = (keys s.nmeta).length ∧
+    (∀ n, (indexOf? (mapping s) n).isSome ↔ (get? s.nmeta n).isSome) ∧
+    (∀ n i, indexOf? (mapping s) n = some i → (mapping s)[i]? = some n) := by
+  have h := reachable_inv hs
+  have hp : (mapping s).Perm (keys s.nmeta) := sortBy_perm _ _ _
+  refine ⟨hp, ?_, hp.length_eq, fun n => ?_, fun n i hi => indexOf?_get _ n i hi⟩
+  · have := sortBy_sorted (fun (n : Node) => n) ltNat st_ltNat (keys s.nmeta) (by simpa using h.nt.nmetaNodup)
+    exact this.imp (fun hab => by simpa [ltNat] using hab)
+  · rw [indexOf?_some_iff, hp.mem_iff, mem_keys_iff]
+
+/-- The raw tables of a reachable object (`get_edge_list()`, `get_adj_dict()`, `expose_data_structures()`): the keys of
+the edge table are the records; its ids are pairwise different and below `_next_edge_id`; the reverse table is its
+inverse; `_weights` and `_edge_metadata` have exactly the live ids as keys; a node's adjacency list is exactly the ids of
+the records containing it, in the order of the edge table; the adjacency table has exactly the nodes as keys. -/
+theorem C03_raw_tables (s : Store) (hs : Reachable s) :
+    keys (edgeTable s) = edgeKeys s ∧ ((edgeTable s).map (·.2)).Nodup ∧ (∀ p ∈ edgeTable s, p.2 < s.nextId) ∧
+    (∀ k id, get? (edgeTable s) k = some id ↔ get? s.rev id = some k) ∧
+    (∀ id, (get? s.weights id).isSome ↔ (get? s.rev id).isSome) ∧ (∀ id, (get? s.emeta id).isSome ↔ (get? s.rev id).isSome) ∧
+    (∀ n ids, get? (adjTable s) n = some ids →
+      ids = ((edgeTable s).filter (fun p => p.1.2.contains n)).map (·.2)) ∧
+    (∀ n, (get? (adjTable s) n).isSome ↔ (get? s.nmeta n).isSome) := by
+  have h := reachable_inv hs
+  refine ⟨rfl, ids_nodup s h, ?_, fun k id => ⟨h.rev_of_edge k id, h.edge_of_rev k id⟩, h.wKeys, h.mKeys,
+    fun n ids hg => h.adj_char n ids hg, h.nt.same⟩
+  intro p hp
+  exact h.id_lt _ _ (h.rev_of_edge _ _ (get?_of_mem _ _ _ h.keysNodup hp))
+
+/-- `populate_from_dict(expose_data_structures())` rebuilds every table of `Store` - this IS the route `Route.tables`
+of the whole-object machine (incidence table empty) - while `populate_from_dict({})` gives an unweighted object without
+hypergraph metadata (not the constructor's `{"weighted": .., "type": ..}`). -/
+theorem C03_expose_populate (s : Store) (o : Obj) :
+    populate (exposeTables s) = s ∧ derive o .tables = { base := populate (exposeTables o.base) } ∧
+    populate {} = { weighted := false } :=
+  ⟨rfl, rfl, rfl⟩
+
+/-! non-vacuity of the extension round: a constructor call with hypergraph metadata (one key colliding with "weighted"),
+node metadata, the embedded form and a weighted batch on an unweighted object (promotion inside the constructor), then a
+second object built by single calls in another order with other ids - same hashing view -, and one differing in a weight -/
+
+def extArgs : CtorArgs :=
+  { weighted := false, hm := some [(100, 7), (3, 4)], nodeMeta := [(9, [(1, 1)]), (2, [])],
+    edges := .embedded [.pair (.int 5) [3, 1], .pair (.int 2) [2, 1], .pair (.int 5) [1, 2]],
+    weights := some [8, 4, 6], edgeMeta := none }
+
+def extStore : Store := (construct extArgs).getD (Store.new false)
+
+def extOps2 : List XOp := [
+  .f (.new 1 true),
+  .f (.on 1 (.base (.addEdge [2, 1] (.int 5) (some 2) none))),
+  .f (.on 1 (.base (.addEdge [1, 2] (.int 2) (some 4) none))),
+  .f (.on 1 (.base (.removeEdge [1, 2] (.int 5)))),
+  .f (.on 1 (.base (.addEdge [1, 3] (.int 5) (some 8) none))),
+  .f (.on 1 (.base (.addEdge [1, 2] (.int 5) (some 6) none))),
+  .f (.on 1 (.base (.addNode 9 (some [(1, 1)])))),
+  .f (.on 1 (.base (.setHMeta [(100, 90), (3, 4), (101, 92)]))),
+  .ctor 0 extArgs,
+  .ctor 2 { edges := .timesOnly },
+  .ask 0 .hashing]
+
+def extStore2 : Store := ((get? (xrun [] extOps2) 1).map Obj.base).getD (Store.new false)
+
+example : extArgs.WF := by decide
+example : construct extArgs = some extStore := by decide
+example : ∀ op ∈ extOps2, op.WF := by decide
+example : Reachable extStore := (C03_constructor extArgs (by decide)).2 extStore (by decide) |>.2.1
+example : extStore.weighted = true ∧ extStore.hmeta = [(100, 90), (3, 4), (101, 92)] ∧ extStore.nextId = 3 ∧
+    (abs extStore).recs = [((5, [1, 3]), (8, [])), ((2, [1, 2]), (4, [])), ((5, [1, 2]), (6, []))] ∧
+    keys extStore.nmeta = [9, 2, 1, 3] := by decide
+example : ctorCalls extArgs = some [.setHMeta [(100, 90), (3, 4), (101, 92)], .addNode 9 (some [(1, 1)]), .addNode 2 (some []),
+    .addEdges [[3, 1], [2, 1], [1, 2]] [.int 5, .int 2, .int 5] (some [8, 4, 6]) none] := rfl
+example : construct { edges := .timesOnly } = none ∧ construct { edges := .embedded [.pair (.int 1) [1], .other] } = none ∧
+    construct { edges := .separate [[1], [2]] [.int 1] } = none ∧ construct { edges := .separate [[1]] [.int (-1)] } = none ∧
+    construct { edges := .separate [[1, 2], [1, 2]] [.int 1, .int 2], weights := some [4, 4] } = none ∧
+    (construct { weighted := true, edges := .absent, weights := some [4] }).isSome = true := by decide
+example : (get? (xrun [] extOps2) 0).map Obj.base = some extStore ∧ get? (xrun [] extOps2) 2 = none := by decide
+example : hashView extStore = some ⟨true, [(100, 90), (3, 4), (101, 92)],
+    [((2, [1, 2]), (4, [])), ((5, [1, 2]), (6, [])), ((5, [1, 3]), (8, []))],
+    [(1, []), (2, []), (3, []), (9, [(1, 1)])]⟩ := by decide
+example : extStore2.edgeList = [((2, [1, 2]), 1), ((5, [1, 3]), 2), ((5, [1, 2]), 3)] ∧ extStore ≠ extStore2 ∧
+    hashView extStore = hashView extStore2 := by decide
+example : hashView extStore ≠ hashView (setWeight extStore [1, 2] (.int 2) 8).1 := by decide
+example : mapping extStore = [1, 2, 3, 9] ∧ indexOf? (mapping extStore) 9 = some 3 ∧ indexOf? (mapping extStore) 4 = none := by decide
+example : edgeTable extStore = [((5, [1, 3]), 0), ((2, [1, 2]), 1), ((5, [1, 2]), 2)] ∧
+    adjTable extStore = [(9, []), (2, [1, 2]), (1, [0, 1, 2]), (3, [0])] := by decide
+example : populate (exposeTables extStore) = extStore ∧ populate { nextId := some 4 } = { weighted := false, nextId := 4 } := by decide
+example : xrun [] extOps2 = frun [] (extOps2.flatMap XOp.expand) := (C03_ext_projection extOps2 []).1
+example : get? (xspecRun [] extOps2) 0 = some (abs extStore) := by decide
